@@ -50,8 +50,8 @@ CHECKS = {
    note="Trusted: go/ssa, gosmt interpreter (natively cross-validated), in-memory store/KV models, backoff.Retry = at most 3 attempts, yaml.v2 as round-tripping opaque documents, tickers never fire. Outside: the PurgeBuildReverseIndex/PurgeDeleteUnused drivers as a whole (errgroup fan-out over repos, monitors), pebble/badger themselves, uploads racing with the two phases, list-page faults.",
    design="DESIGN.md §6 C13"),
  "C14": dict(
-   text="Bounded symbolic model checking of the fault-free purge kernels on the real code: the index chunk byte stream (dbReader.Read with every buffer size 1..12, up to 3 keys, marked/unmarked, maxKeys 1..3) is exactly timestamp line + unmarked keys and parses back (loadChunk) to the same key set and time; the uploader tail partitions the unmarked keys into chunks of <= chunkSize in order and stops after the first empty chunk; checkAndDeleteKey deletes iff not indexed and not newer than the index and not dry-run; scanBlob examines every blob key exactly once for every page size 1..5 and deletes exactly the unindexed ones; PurgeLock is create-if-absent unless forced.",
-   note="Trusted: as C13. Outside: chunk sizes / key counts beyond the bounds, concurrent lock acquisition interleavings (the lock is a single NoOverWrite Put; atomicity is the store's), extra contexts, the drivers as a whole.",
+   text="Bounded symbolic model checking of the fault-free purge kernels on the real code: the index chunk byte stream (dbReader.Read with every buffer size 1..12, up to 3 keys, marked/unmarked, maxKeys 1..3) is exactly timestamp line + unmarked keys and parses back (loadChunk) to the same key set and time; the uploader tail partitions the unmarked keys into chunks of <= chunkSize in order and stops after the first empty chunk; checkAndDeleteKey deletes iff not indexed and not newer than the index and not dry-run; scanBlob examines every blob key exactly once for every page size 1..5 and deletes exactly the unindexed ones; PurgeLock is create-if-absent unless forced, and of two jobs taking the lock concurrently (every interleaving at store-call granularity) exactly one acquires a free lock and none a held one.",
+   note="Trusted: as C13. Outside: chunk sizes / key counts beyond the bounds, more than two concurrent lock takers, extra contexts, the drivers as a whole.",
    design="DESIGN.md §6 C14"),
  "C18": dict(
    text="Bounded symbolic model checking of the mutable mount's inode allocator (allocINode/freeINode, real code): one inductive step (alloc or free of a live id) from an arbitrary valid allocator state (highest inode first..first+6, free list of <= 3 distinct ids) preserves the representation invariant and changes the live set by exactly the allocated / freed id, and two allocations in a row never return the same or an in-use id. Partial: the namespace operations (mkdir/create/rename/unlink/rmdir/lookup/forget) and commit are not yet covered.",
